@@ -394,7 +394,9 @@ def main(argv=None):
                  "shapes above the bound"],
         exhaustive=False,
     )
-    return common.main(PROP, "harness.C02", cs, args.tier, args.seed, describe, extra_evidence=extra,
+    from symnp import selftest
+
+    return common.main(PROP, "harness.C02", cs, args.tier, args.seed, describe, preflight=selftest.run, extra_evidence=extra,
                        deadline_s=900 if args.tier == "quick" else 3000)
 
 
